@@ -9,7 +9,7 @@ from vf.simk.world import World, Mapping, PAGESIZE, SMAPS_KEYS
 
 ID = "C13"
 LEVEL = "exploration"
-PATHS = [b"", b"/lib/a.so", b"/lib/a.so", b"/tmp/a b", b"/x:y", b"/tmp/z (deleted)", b"[heap]", b"/lit (deleted)", b"/p\xff"]
+PATHS = [b"", b"/lib/a.so", b"/lib/a.so", b"/tmp/a b", b"/x:y", b"/tmp/z (deleted)", b"[heap]", b"/lit (deleted)", b"/p\xff", b"/srv/a  b", b"/srv/a b", b"/srv/t\tb"]
 BOUND = [0, 1, 2 ** 31 - 1, 2 ** 32, 2 ** 40, 2 ** 52]
 FIELDS = ["rss", "size", "pss", "shared_clean", "shared_dirty", "private_clean", "private_dirty", "referenced", "anonymous", "swap"]
 KEY_OF = {"rss": "Rss", "size": "Size", "pss": "Pss", "shared_clean": "Shared_Clean", "shared_dirty": "Shared_Dirty",
